@@ -3,6 +3,8 @@ import asyncio
 import logging
 import random
 
+from haiway import ctx
+
 from harness.decoys import decoyed
 from harness.legs import cfg_text, gen_traces, leg_apalache, leg_m, leg_mutant, leg_r, leg_t_gen
 from harness.vloop import Falsy, VClock, VLoop
@@ -97,7 +99,7 @@ class RetryDriver:
         self.cfg = init["cfg"]
         self.script = []
         logging.getLogger().addHandler(logging.NullHandler())
-        logging.getLogger().setLevel(logging.CRITICAL + 1)
+        logging.getLogger().setLevel(logging.DEBUG)     # enabled (and swallowed by the null handler): what is logged is formatted
 
     def close(self):
         pass
@@ -187,13 +189,16 @@ class RetryDriver:
             try:
                 if sync:
                     try:
-                        got = ("val", wrapped())
+                        # the call is made from inside a scope: what the wrapper logs goes through that scope
+                        with ctx.scope("retrying %s"):
+                            got = ("val", wrapped())
                     except BaseException as e:  # noqa: BLE001
                         got = ("exc", e)
                 else:
                     async def outer():
                         try:
-                            return ("val", await wrapped())
+                            async with ctx.scope("retrying %s"):
+                                return ("val", await wrapped())
                         except BaseException as e:  # noqa: BLE001
                             return ("exc", e)
 
